@@ -103,7 +103,7 @@ class LoopVar(V):
         it = self.iter
         while isinstance(it, Rev):
             it = it.arg
-        return "each(%s)%s" % (show(it, 1), self.path)
+        return "each(%s)%s" % (show(it, 0, 12), self.path)
 
 
 class Tup(V):
